@@ -1,5 +1,5 @@
 (* Refresh-token rotation and reuse detection (C04), history level. *)
-From FositeModel Require Import Base.Str Model.Scope Model.Core Model.Flows Proofs.CoreInv Proofs.StepInv Proofs.Family Proofs.Decay.
+From FositeModel Require Import Base.Str Model.Scope Model.Core Model.Flows Proofs.CoreInv Proofs.StepInv Proofs.Family Proofs.Implicit Proofs.Decay.
 
 Arguments upd : simpl never.
 
@@ -153,20 +153,20 @@ Theorem reuse_kills_family cfg cls h1 c cl tok k r h2 i e tampered hint scopes :
   let res := refresh_flow cfg s1 (Some c) tok in
   o_err (snd res) = "invalid_grant" /\ o_minted (snd res) = [] /\
   (let s2 := run cfg (fst res) h2 in
-   nth_error (log s2) i = Some e -> i_rid e = r_id r -> i_kind e <> KImplicit ->
+   nth_error (log s2) i = Some e -> i_rid e = r_id r ->
    introspect cfg s2 {| p_ref := CRef i; p_tampered := tampered |} hint scopes = None).
 Proof.
   intros s1 Hc Hg Hk Hr res.
   assert (I1 : Inv s1) by apply Inv_reachable.
-  destruct (reuse_kills cfg s1 c cl tok k r I1 Hc Hg Hk Hr) as [He [Hm Hd]].
+  destruct (reuse_kills_all cfg s1 c cl tok k r I1 Hc Hg Hk Hr) as [He [Hm Hd]].
   split; [exact He|split; [exact Hm|]].
-  intros s2 Hn Hrid Hkind.
+  intros s2 Hn Hrid.
   assert (I2 : Inv (fst res)).
   { unfold res. rewrite (refresh_is_step _ _ _ _ []). now apply Inv_step. }
   assert (Hlt : r_id r < next_rid (fst res)).
   { pose proof (next_rid_step cfg s1 (ORefresh (Some c) tok [])) as Hm'.
     cbn [step] in Hm'. pose proof (proj2 (inv_refresh_fresh s1 _ _ _ I1 Hr)). unfold res. lia. }
-  eapply dead_credential_inactive; [apply Inv_run; exact I2|apply dead_run; [exact Hd|exact Hlt]|exact Hn|exact Hrid|exact Hkind].
+  eapply dead_all_credential_inactive; [apply Inv_run; exact I2|apply dead_all_run; [exact Hd|exact Hlt]|exact Hn|exact Hrid].
 Qed.
 
 Theorem reuse_spares_other_grants cfg cls h1 c cl tok k r i e tampered hint scopes :
